@@ -96,6 +96,40 @@ func genC08Consensus(g *G) {
 		vals, hidx := mercLabelled(g, honest, faulty)
 		g.Emit(J{"op": "mercury.consensus." + opn, "f": f, "vals": vals, "honest": hidx}, "median", opn, "f="+S(f))
 	}
+	// ---- machine-word edges: every value fits a signed 32/64/128-bit word but the difference between a correct
+	// and an opposite-signed faulty value does not, for some of the correct values only (a comparator that
+	// subtracts in a machine word is then not even transitive); all list orders matter, so many shuffles
+	for i := 0; i < g.N(800, 10000); i++ {
+		f := 1 + g.R.Intn(3)
+		b := 1 + g.R.Intn(f)
+		n := 2*f + 1 + g.R.Intn(f+1)
+		h := n - b
+		w := []uint{31, 63, 63, 63, 127}[g.R.Intn(5)]
+		half := new(big.Int).Lsh(big.NewInt(1), w) // 2^(word-1)
+		lo := new(big.Int).Rand(g.R, new(big.Int).Rsh(half, 1))
+		lo.Add(lo, new(big.Int).Rsh(half, 3))
+		spread := new(big.Int).Rsh(half, uint(3+g.R.Intn(8)))
+		sign := int64(1)
+		if g.R.Intn(2) == 0 {
+			sign = -1
+		}
+		mk := func(v *big.Int) *big.Int { return new(big.Int).Mul(v, big.NewInt(sign)) }
+		var honest, faulty []J
+		for k := 0; k < h; k++ {
+			honest = append(honest, val(mk(new(big.Int).Add(lo, new(big.Int).Rand(g.R, spread))), true))
+		}
+		for k := 0; k < b; k++ {
+			t := new(big.Int).Add(lo, new(big.Int).Rand(g.R, spread)) // the threshold lies inside the correct spread
+			fv := new(big.Int).Sub(t, half)
+			if g.R.Intn(4) == 0 {
+				fv.Sub(fv, half) // far outside: the difference wraps all the way round
+			}
+			faulty = append(faulty, val(mk(fv), true))
+		}
+		opn := []string{"benchmark", "bid", "ask"}[g.R.Intn(3)] // fees skip negative values
+		vals, hidx := mercLabelled(g, honest, faulty)
+		g.Emit(J{"op": "mercury.consensus." + opn, "f": f, "vals": vals, "honest": hidx}, "median", "machine-word-edge", opn, "f="+S(f))
+	}
 	// ---- timestamps
 	for i := 0; i < g.N(400, 5000); i++ {
 		f := 1 + g.R.Intn(3)
